@@ -248,7 +248,15 @@ pub fn apply(virt: bool, v: u64, a: Act) -> Option<u64> {
         if virt {
             let x = VirtAddr::new(v);
             Some(match a.0 {
+                // the alignment argument is generic (`impl Into<u64>`): use the narrowest integer type that holds it, so that
+                // the u8 / u16 / u32 / u64 instantiations are all exercised
+                0 if a.1 < 8 => x.align_up(1u8 << a.1).as_u64(),
+                0 if a.1 < 16 => x.align_up(1u16 << a.1).as_u64(),
+                0 if a.1 < 32 => x.align_up(1u32 << a.1).as_u64(),
                 0 => x.align_up(1u64 << a.1).as_u64(),
+                1 if a.1 < 8 => x.align_down(1u8 << a.1).as_u64(),
+                1 if a.1 < 16 => x.align_down(1u16 << a.1).as_u64(),
+                1 if a.1 < 32 => x.align_down(1u32 << a.1).as_u64(),
                 1 => x.align_down(1u64 << a.1).as_u64(),
                 2 => (x + a.1).as_u64(),
                 3 => (x - a.1).as_u64(),
@@ -276,7 +284,13 @@ pub fn apply(virt: bool, v: u64, a: Act) -> Option<u64> {
         } else {
             let x = PhysAddr::new(v);
             Some(match a.0 {
+                0 if a.1 < 8 => x.align_up(1u8 << a.1).as_u64(),
+                0 if a.1 < 16 => x.align_up(1u16 << a.1).as_u64(),
+                0 if a.1 < 32 => x.align_up(1u32 << a.1).as_u64(),
                 0 => x.align_up(1u64 << a.1).as_u64(),
+                1 if a.1 < 8 => x.align_down(1u8 << a.1).as_u64(),
+                1 if a.1 < 16 => x.align_down(1u16 << a.1).as_u64(),
+                1 if a.1 < 32 => x.align_down(1u32 << a.1).as_u64(),
                 1 => x.align_down(1u64 << a.1).as_u64(),
                 2 => (x + a.1).as_u64(),
                 3 => (x - a.1).as_u64(),
